@@ -37,6 +37,6 @@ one() {
   return $rc
 }
 export -f one; export RL
-ls selftest/*/mutants/*.py selftest/*/benign/*.py 2>/dev/null | grep -E "${1:-.}" | xargs -P 8 -I{} bash -c 'one {}' | sort | tee /tmp/selftest.out
+ls selftest/*/mutants/*.py selftest/*/benign/*.py 2>/dev/null | grep -E "${1:-.}" | xargs -P ${SELFTEST_PAR:-8} -I{} bash -c 'one {}' | sort | tee /tmp/selftest.out
 echo "---"; grep -c "^ok" /tmp/selftest.out | sed 's/^/passed: /'; grep -vc "^ok\|^  \|^VIOLATION\|^UNDECIDED" /tmp/selftest.out | sed 's/^/failed: /'
 ! grep -qE "^(MISSED|FALSE-ALARM|EDITFAIL|BUILDFAIL|NOEXPECT)" /tmp/selftest.out
